@@ -10,7 +10,7 @@ from pwv.props import c08
 
 ID = 'C09'
 RULE = ('Hypothesis draws (order 1/2, filter family incl. band-pass, positive magnitude bias, colour, N, C, H,W in 2..24, input '
-        'recipe incl. all-zero / sparse / constant and scales 1e-30..1e30, padding mode (symmetric, or zero for the first-order layer), cotangent recipe, contiguous or permuted cotangent, '
+        'recipe incl. all-zero / sparse / constant and scales 1e-30..1e30, padding mode (symmetric, or zero for the first-order layer), cotangent recipe, contiguous or permuted cotangent, memory layout of the input leaf (contiguous, transposed view, channels_last, NHWC-permuted, cropped view), '
         'dtype for the finiteness part). Oracles, always against the function the forward pass computed: (a) central finite '
         'differences along 4 generated directions in float64 (bias >= 1e-3, unit-scale inputs); (b) torch autograd through a '
         'recomposition of the same forward from differentiable primitives (conv-based fwd_j1/fwd_j2plus, avg_pool2d, sqrt), used '
@@ -51,7 +51,9 @@ def _case(draw, unit):
                                             scales=(0, 0, 0, 0, 4, -4, 30, -30, -7, -9))),
             'rg': draw(core.recipe_strategy(kinds=['gaussian', 'gaussian', 'sparse', 'spike', 'constant', 'contrast', 'contrast', 'ints'], scales=(0,))),
             'mode': draw(st.sampled_from(['symmetric', 'symmetric', 'zero'])) if order == 1 else 'symmetric',
-            'permuted_cotangent': draw(st.booleans()), 'k': draw(st.integers(0, 10**6))}
+            'permuted_cotangent': draw(st.booleans()), 'k': draw(st.integers(0, 10**6)),
+            # memory layout of the leaf the gradient is asked for (the same numbers in every layout)
+            'x_layout': draw(st.sampled_from(['contiguous', 'contiguous', 'transposed_view', 'channels_last', 'nhwc_permuted', 'cropped_view']))}
     if case['rx']['scale'] in (-7, -9) and draw(st.booleans()):
         # low-amplitude data with a bias of the same order (any magbias > 0 is in the property's domain)
         case['bias'] = draw(st.sampled_from([1e-7, 1e-8, 1e-10]))
@@ -145,6 +147,24 @@ def _loss(Z, g, permuted):
     return (Z * g).sum()
 
 
+def _leaf(x, layout):
+    """A leaf tensor with the values of x that requires grad, in the requested memory layout."""
+    if layout == 'transposed_view':
+        t = torch.tensor(np.ascontiguousarray(x.transpose(0, 1, 3, 2))).transpose(-1, -2)
+    elif layout == 'channels_last':
+        t = torch.tensor(x).contiguous(memory_format=torch.channels_last)
+    elif layout == 'nhwc_permuted':
+        t = torch.tensor(np.ascontiguousarray(x.transpose(0, 2, 3, 1))).permute(0, 3, 1, 2)
+    elif layout == 'cropped_view':
+        big = torch.zeros(x.shape[0], x.shape[1], x.shape[2] + 3, x.shape[3] + 2, dtype=torch.float64)
+        big[:, :, 1:1 + x.shape[2], 2:] = torch.tensor(x)
+        t = big[:, :, 1:1 + x.shape[2], 2:]
+    else:
+        t = torch.tensor(x)
+    assert np.array_equal(t.detach().numpy(), x)
+    return t.requires_grad_(True)
+
+
 def run_case(case):
     r = Result()
     order, colour, bias = case['order'], case['colour'], case['bias']
@@ -159,7 +179,9 @@ def run_case(case):
         return r.skip('KF-D10 domain (C08)')
     x = core.make(case['rx'], [N, C, H, W])
     layer = c08.make_layer(case)
-    xt = torch.tensor(x, requires_grad=True)
+    xt = _leaf(x, case.get('x_layout', 'contiguous'))
+    r.label('x_' + case.get('x_layout', 'contiguous') if case.get('x_layout', 'contiguous') != 'contiguous' else None,
+            'x_noncontiguous' if not xt.is_contiguous() else None)
     ok, Z = lib(layer, xt)
     if not ok:
         return r.fail(Z.bucket, 'forward raised: %s' % Z)
@@ -283,7 +305,7 @@ def run_case(case):
 
 
 LEVEL_TEXT = ('Generated-input search over both layers, families, positive biases, colour, sizes (incl. extended ones), input '
-              'kinds from all-zero to 1e+-30 scales and contiguous / permuted cotangents: the hand-written backward is compared '
+              'kinds from all-zero to 1e+-30 scales and contiguous / permuted cotangents, inputs in five memory layouts: the hand-written backward is compared '
               'with torch autograd of the same forward recomposed from differentiable primitives (exact, when the recomposition '
               'reproduces the output), with central finite differences of the real forward, and checked finite in float32 and '
               'float64; SmoothMagFn is compared with autograd for all three grad subsets.')
